@@ -1,7 +1,7 @@
 """C18 - Newick, Nexus and FASTA exports encode the trees and sequences faithfully (structural clauses)."""
 from __future__ import annotations
 
-from . import scopes, lib_newick, lib_guards, lib_module, lib_py, lib_variant, lib_err, lib_mem
+from . import scopes, lib_newick, lib_guards, lib_module, lib_py, lib_variant, lib_err, lib_mem, lib_kind
 
 LEVEL = "other"
 EXPLANATION = ("Bounded writes in the C newick converter (typestate), exact root / precision / buffer guards, agreement of the fast "
@@ -27,6 +27,7 @@ def run(ctx):
     lib_err.discipline(ctx, P, ["convert"])
     lib_py.kw_forward(ctx, py, mods=("trees", "text_formats"), only=ps)
     lib_py.unused_params(ctx, py, mods=("trees", "text_formats"), only=ps)
+    lib_kind.py_lints(ctx, py, mods=("trees", "text_formats"), only=ps)
     # module guards of Tree_get_newick: precision in [0, 17], buffer_size > 0
     tu = P.tus["module"]
     fn = P.need("Tree_get_newick", "module")
